@@ -144,6 +144,10 @@ example : gaussianRequest ((128 * 128 : ℚ) / 12) 1513 < 0 := by decide +kernel
 example : gaussianRequest ((32 : ℚ) / 4) 3 = 4 := by decide +kernel
 example : gaussLoop 1 [5, 5, 100, -1, 3, 0, 7] 0 [true, false, false, false, false, false] =
     some [true, false, false, true, false, true] := by decide
+/-- `gaussian_budget` instantiated: 1 ACS cell, target 7/2, request 2, three cells added, |4 − 7/2| = 1/2 -/
+example : |(countTrue [true, false, true, true, false, true] : ℚ) - 7 / 2| ≤ 1 / 2 :=
+  gaussian_budget (7 / 2) [true, false, false, false, false, false] _ [5, 5, 100, -1, 3, 0, 7, 2]
+    (by norm_num [countTrue]) (by decide +kernel)
 /-- the tie `x − L − 1 = 1/2` attains the bound `1/2` -/
 example : gaussianRequest ((27 : ℚ) / 2) 12 = 0 := by decide +kernel
 
